@@ -553,3 +553,58 @@ Proof.
   apply (Forall_nth_lt _ _ _ [] j Hfull). lia.
 Qed.
 Print Assumptions so_rows_have_colcount_cells.
+
+(** * Positional alignment of text rows and table rows (C05 "columns in the same order").
+    A text row lists its values in punch order under the heading line; the table stores each value under its name.
+    If a finished row punched pairwise distinct names that are a PREFIX of the heading list, in heading order, then the
+    k-th value of the row is the content of column k.  A row that skips a heading in the middle breaks this
+    ([skipped_value_misaligns]). The correspondence checks the hypothesis on every recorded row. *)
+Definition aligned (hs : list string) (row : list (string * cell)) : Prop :=
+  NoDup (map fst row) /\ map fst row = firstn (List.length row) hs.
+
+Lemma last_pushed_absent : forall k row, ~ In k (map fst row) -> last_pushed k row = None.
+Proof.
+  intros k row. induction row as [|[k' v] rest IH]; intros Hn; simpl; [reflexivity|].
+  rewrite IH by (intros Hin; apply Hn; right; exact Hin).
+  destruct (String.eqb_spec k k') as [E|E]; [|reflexivity].
+  exfalso. apply Hn. left. symmetry. exact E.
+Qed.
+
+Lemma last_pushed_nodup_nth : forall row k d, NoDup (map fst row) -> k < List.length row ->
+  last_pushed (fst (nth k row d)) row = Some (snd (nth k row d)).
+Proof.
+  induction row as [|[k' v] rest IH]; intros k d Hnd Hk; simpl in Hk; [lia|].
+  inversion Hnd as [|x l Hnotin Hnd' Heq]; subst.
+  destruct k as [|k]; simpl.
+  - rewrite (last_pushed_absent k' rest Hnotin). rewrite String.eqb_refl. reflexivity.
+  - rewrite (IH k d Hnd' ltac:(lia)). reflexivity.
+Qed.
+
+Theorem aligned_row_positional : forall t r k d,
+  aligned (t_heads t) (nth (r - 1) (t_closed t) []) -> k < List.length (nth (r - 1) (t_closed t) []) ->
+  spec_get t r k = snd (nth k (nth (r - 1) (t_closed t) []) d).
+Proof.
+  intros t r k d [Hnd Hpre] Hk. unfold spec_get.
+  set (row := nth (r - 1) (t_closed t) []) in *.
+  assert (Hname : nth k (t_heads t) EmptyString = fst (nth k row d)).
+  { assert (Hk' : k < List.length (map fst row)) by (rewrite map_length; exact Hk).
+    rewrite <- (map_nth fst row d k).
+    rewrite (nth_indep (map fst row) (fst d) EmptyString Hk').
+    rewrite Hpre. clear -Hk. revert k Hk. generalize (List.length row) as n. generalize (t_heads t) as hs.
+    induction hs as [|h hs IH]; intros n k Hk; destruct n as [|n]; simpl; try lia.
+    - destruct k; reflexivity.
+    - destruct k as [|k]; [reflexivity|]. apply IH. lia. }
+  rewrite Hname. rewrite (last_pushed_nodup_nth row k d Hnd Hk). reflexivity.
+Qed.
+Print Assumptions aligned_row_positional.
+
+(** necessity: headings a b c, a row that punches a and c only: its second text cell is c's value, column 2 (b) is empty *)
+Example skipped_value_misaligns :
+  let t := spec_run [OPush "a" (CLong 1); OPush "b" (CLong 2); OPush "c" (CLong 3); OEndRow;
+                     OPush "a" (CLong 10); OPush "c" (CLong 30); OEndRow] in
+  spec_get t 2 1 = CEmpty /\ snd (nth 1 (nth 1 (t_closed t) []) (EmptyString, CEmpty)) = CLong 30 /\
+  ~ aligned (t_heads t) (nth 1 (t_closed t) []).
+Proof.
+  cbv zeta. split; [reflexivity|]. split; [reflexivity|].
+  intros [_ H]. vm_compute in H. discriminate H.
+Qed.
